@@ -110,14 +110,23 @@ func init() {
 			return nil
 		},
 		"verifAssert": func(fr *frame, args []value) value {
+			if fr.i.quiet {
+				return nil
+			}
 			fr.i.doAssert(fr, args[0], argString(args[1]))
 			return nil
 		},
 		"verifCover": func(fr *frame, args []value) value {
+			if fr.i.quiet {
+				return nil
+			}
 			fr.i.doCover(argString(args[0]))
 			return nil
 		},
 		"verifExpect": func(fr *frame, args []value) value {
+			if fr.i.quiet {
+				return nil
+			}
 			r := fr.i.run
 			r.mu.Lock()
 			for _, l := range variadic(args[0]) {
@@ -164,6 +173,13 @@ func init() {
 			}
 			return fr.i.tc.mkBool(fr.i.valueEqualTerm(a.v, b.v))
 		},
+		// verifQuiet(on): inside a self-composition the wrapped harness body runs for its state changes only -
+		// its own assertions, cover labels and expectations belong to its home property and are skipped
+		// (assumptions stay: they define the inputs)
+		"verifQuiet": func(fr *frame, args []value) value {
+			fr.i.quiet = args[0].(bool)
+			return nil
+		},
 		"verifMapOrderSymbolic": func(fr *frame, args []value) value {
 			fr.i.symMapOrder = args[0].(bool)
 			return nil
@@ -203,6 +219,18 @@ func init() {
 			// KNOWN-FINDING and only violations outside it are violations.
 			i := fr.i
 			label, kf := argString(args[1]), argString(args[2])
+			if i.quiet {
+				// the harness continues as if the asserted condition held
+				switch cc := args[0].(type) {
+				case bool:
+					if !cc {
+						panic(abort{"assume-false", "quiet known-finding assertion"})
+					}
+				case symBool:
+					i.assume(cc.t, "quiet known-finding assertion")
+				}
+				return nil
+			}
 			if !i.run.opts.Known[kf] {
 				i.doAssert(fr, args[0], label)
 				return nil
